@@ -13,11 +13,17 @@ creation) writes registers in the middle of a run, in scripts and in transaction
 (`script_write_witness`, `failed_write_witness`, `write_before_end_witness`; known finding
 `write-via-temp-commit`).  The `_partial` theorems prove the property for all executions without a
 temporary commit (`st.flushed = false`).
+
+`commit_complete` (the ledger after a successful transaction's writes equals the in-memory state a later
+transaction reads) is stated and proved on the executor with a register map, `Verif.Model.ExecStore`
+(lemmas: Verif.Proofs.ExecStore); the `exec` stream checks it on the real runtime through the state
+probes of the generated histories (class `stale-read-after-commit`).
 -/
 import Verif.Proofs.Exec
+import Verif.Proofs.ExecStore
 import Verif.Spec.CommitSites
 namespace Verif.Properties.C24
-open Verif.Model.Exec Verif.Proofs.Exec
+open Verif.Model.Exec Verif.Proofs.Exec Verif.Model.ExecStore Verif.Proofs.ExecStore
 
 /-- FX: the call sites of commitStorage / Storage.Commit / CommitStorageTemporarily / FastCommit /
     Ledger.SetValue / Record­ContractUpdate … extracted from the current source are exactly the pinned ones. -/
@@ -92,6 +98,68 @@ theorem exec_accepted (kind : Kind) (b : Behaviour) :
   rw [cfg_from_source]
   exact exec_accepted_aux kind b
 
+/-! ### `commit_complete`: the executor with a register map (`Verif.Model.ExecStore`)
+
+An execution works on a fresh in-memory storage (read cache + dirty entries over the ledger); a successful
+transaction's commit writes every dirty register once; a failed execution and a script write nothing. -/
+
+/-- **commit_complete.**  For every ledger and every program: the ledger after the writes of a successful
+    transaction's commit equals the in-memory state the program had when it ended (its view through dirty
+    entries, read cache and ledger), at every register. -/
+theorem commit_complete {K V : Type} [DecidableEq K] (L : Ledger K V) (s : Step K V) (hc : s.commits = true) :
+    (execStep L s).1 = (runOps L {} s.prog).1.view L := by
+  obtain ⟨_, _, h3⟩ := runOps_ideal L s.prog {} (cacheOk_empty L)
+  unfold execStep
+  rcases hr : runOps L {} s.prog with ⟨m, rs⟩
+  rw [hr] at h3
+  simp only [hc, if_true]
+  funext k
+  rw [applyWrites_commitWrites, view_of_cacheOk L m h3]
+
+/-- **Later transactions read what earlier ones wrote** — for every ledger and every history of
+    successful transactions, failed transactions and scripts: executing each step on a fresh storage over the
+    ledger (commit on success only) yields, step for step, the values that the same programs read of ONE
+    in-memory state which successful transactions update in place and which failed transactions and scripts
+    leave untouched; and the same final state.  (A read that differs is the stream's class
+    `stale-read-after-commit`.) -/
+theorem commit_complete_history {K V : Type} [DecidableEq K] (L : Ledger K V) (ss : List (Step K V)) :
+    execHistory L ss = idealHistory L ss :=
+  execHistory_eq_idealHistory ss L
+
+/-- A failed execution and a script leave every register as it was. -/
+theorem no_commit_ledger_unchanged {K V : Type} [DecidableEq K] (L : Ledger K V) (s : Step K V)
+    (hc : s.commits = false) : (execStep L s).1 = L := by
+  unfold execStep
+  rcases runOps L {} s.prog with ⟨m, rs⟩
+  simp [hc]
+
+/-- The commit writes every dirty register exactly once (so the order of its writes does not matter for
+    the resulting ledger; the canonical order is C33's `model_commit_canonical`). -/
+theorem commit_writes_each_register_once {K V : Type} [DecidableEq K] (L : Ledger K V) (prog : List (Op K V)) :
+    ((commitWrites (runOps L {} prog).1.deltas).map (·.1)).Nodup :=
+  commitWrites_nodup _
+
+/-- The register-map executor is an instance of the executor model of the `_partial` theorems: the
+    host-visible trace of a step (reads that reach the ledger, program activity, the commit's writes) is
+    the trace `exec` produces for the behaviour `behaviourOf`, hence accepted by the protocol without a
+    temporary commit — for every ledger, program, kind and result. -/
+theorem store_exec_accepted {V : Type} (kind : Kind) (L : Ledger (Nat × Bool × Nat) V)
+    (s : Step (Nat × Bool × Nat) V) (ok : Bool) :
+    accept kind (exec (Verif.Spec.CommitSites.cfgOf Verif.Gen.CommitSites.sites) kind (behaviourOf L s ok)) =
+      .ok ⟨.done, false⟩ :=
+  exec_accepted kind (behaviourOf L s ok)
+
+/-- Why the fresh storage per execution matters (the shape of a stale read): an execution that reuses the
+    read cache of an earlier one, across another transaction's commit, reads the old value — here register 0
+    after `set 0 := 5` was committed: the stale cache yields `none`, the ledger (and the reference semantics)
+    `some 5`. -/
+theorem stale_cache_witness :
+    let L0 : Ledger Nat Nat := fun _ => none
+    let m1 := (runOps L0 {} [Op.get 0]).1                          -- execution 1 read register 0 (absent)
+    let L1 := (execStep L0 ⟨true, [Op.set 0 (some 5)]⟩).1           -- execution 2 committed 0 := 5
+    (runOps L1 m1 [Op.get 0]).2 = [none] ∧                          -- execution 3 on the stale cache
+    (runOps L1 {} [Op.get 0]).2 = [some 5] ∧ (idealOps L1 [Op.get 0]).2 = [some 5] := by decide
+
 /-- Why the fact matters: an executor that commits although the run failed (the planned mutation)
     produces a trace the protocol rejects. -/
 theorem commit_on_failure_rejected :
@@ -121,6 +189,12 @@ theorem write_before_end_witness :
 /-- The driver's oracle for the known finding is exact on accepted traces in one direction: a trace
     accepted with `flushed` contains a temporary commit… (checked on the witnesses) -/
 example : hasTempCommit scriptTrace = true ∧ hasTempCommit failedTrace = true := by decide
+
+/-! Non-vacuity of `commit_complete_history`: save 7 to register 1 (ok), a failed transaction that sets it
+to 9, a script that sets it to 3, then a transaction reading it: it reads 7 three times over. -/
+example : (execHistory (fun (_ : Nat) => (none : Option Nat))
+    [⟨true, [.get 1, .set 1 (some 7), .get 1]⟩, ⟨false, [.set 1 (some 9), .get 1]⟩, ⟨false, [.set 1 (some 3)]⟩,
+     ⟨true, [.get 1]⟩]).2 = [[none, some 7], [some 9], [], [some 7]] := by decide
 
 /-! Non-vacuity: ordinary accepted executions (from real runs). -/
 example : accept .tx [.host, .host, .pp, .step, .read, .read, .alloc, .alloc, .step, .log, .host,
